@@ -94,6 +94,8 @@ func checkC05(p *Program, r *Result) {
 	checkFlush(p, r)
 	checkSummaryOffsetsComplete(p, r, isSink)
 	checkWriteRecordCount(p, r)
+	r.rule("C05.o", "writeSummarySection hands the recorded summary groups back to Close (footer summary_start)", 1)
+	checkSummaryOffsetsReturned(p, r, "C05.o")
 	r.rule("C05.m", "retained index records own their maps/slices", 1)
 	checkRetainedRecordsOwnContainers(p, r, "C05.m")
 	r.rule("C05.r", "the chunk buffer read at flush is the buffer the compressor writes into", 1)
